@@ -10,6 +10,15 @@ REPLAYS = os.path.join(VERIF, "replays")
 EVIDENCE = os.path.join(VERIF, "evidence")
 KNOWN = os.path.join(VERIF, "known_findings.json")
 REPO = "/repo"
+# private experiments only (bin/vmutant-par: seeded changes tried side by side in scratch worktrees): build the harness from a copy
+# of the harness module whose go.mod points to a scratch worktree, and keep build output, evidence and replay files out of /verif.
+# The registered checks never set these: they build from /repo's working tree and write /verif/evidence.
+if os.environ.get("VERIF_HARNESS"):
+    HARNESS = os.environ["VERIF_HARNESS"]
+if os.environ.get("VERIF_OUT"):
+    BUILD = os.path.join(os.environ["VERIF_OUT"], "build")
+    EVIDENCE = os.path.join(os.environ["VERIF_OUT"], "evidence")
+    REPLAYS = os.path.join(os.environ["VERIF_OUT"], "replays")
 
 GOENV = dict(os.environ, GOFLAGS="-mod=mod", GOPROXY="off", GOSUMDB="off", GOTOOLCHAIN="local")
 
